@@ -108,6 +108,7 @@ type Unit struct {
 	noNilMerge bool
 	NAssumeCalls int
 	inInit   bool
+	LinearAppends int
 	Standalone int
 	cellByID map[int]*Cell
 	divMemo  map[string]divEntry
@@ -271,7 +272,22 @@ func (u *Unit) mkArr(fn func(idx *Term) *Term) *Term {
 	id := fmt.Sprintf("<arr#%d>", narr)
 	return &Term{S: id, Sort: SArr, Fn: func(idx *Term) *Term {
 		if u.binder > 0 {
-			return fn(idx)
+			// under a quantifier nothing can be named by a constant: the array
+			// gets a function symbol with a (patterned) defining axiom instead,
+			// so that reads through long write histories stay small
+			fkey := id + "@fn"
+			if e, ok := u.readMemo[fkey]; ok && u.S.Alive(e.scope) {
+				return App(SInt, e.q.S, idx)
+			}
+			fname := u.freshName("A")
+			u.S.DeclareFun(fname, []Sort{SInt}, SInt)
+			u.readMemo[fkey] = divEntry{q: Const(fname, SInt), scope: u.S.ScopeID()}
+			u.nq++
+			kv := fmt.Sprintf("a%d", u.nq)
+			body := fn(Const(kv, SInt))
+			ax := &Term{S: fmt.Sprintf("(forall ((%s Int)) (! (= (%s %s) %s) :pattern ((%s %s))))", kv, fname, kv, body.S, fname, kv), Sort: SBool}
+			u.S.Assert(ax)
+			return App(SInt, fname, idx)
 		}
 		if len(idx.S) > 48 && !idx.IsInt {
 			c := u.newConst("ix", SInt)
